@@ -14,7 +14,7 @@
 From Coq Require Import String Ascii List Bool ZArith NArith.
 Import ListNotations.
 From ACH Require Import Bytes JsonCodec JsonSurvive JsonPostTable Layout FileStruct JsonFile JsonFileCurrent.
-From ACH Require Import JsonTags JsonPost Offsets OffsetTable Layouts RecValid RecRules.
+From ACH Require Import JsonTags JsonPost Offsets OffsetTable Layouts RecValid RecRules JsonDefaultsTable.
 Local Open Scope string_scope.
 Local Open Scope list_scope.
 
@@ -206,6 +206,11 @@ End Adv.
 
 Definition fhv_t := list rtree -> rtree -> bool.
 
+(* the checks of FileHeader.ValidateWith that do not depend on the options: len(FileIDModifier) != 1 and the three
+   constants (the regenerated rules of the shapes `len(F) != n` / `F != "literal"`; Gen/JsonDefaults.v lists them as
+   unconditional top-level checks) *)
+Definition hdr_core_rules : rules := core_rules V_FileHeader.
+
 Section Hyps.
   Variable fhv bhv : fhv_t.
   Variable fv : rtree -> bool.
@@ -220,13 +225,13 @@ Section Hyps.
     && forallb (has_str "priorityCode" (bstr "01")) (kid d "Header")
     && dates_short d.
 
-  (* valid, as far as the round trip needs it: the file header passes the regenerated rules of FileHeader.Validate,
+  (* valid, as far as the round trip needs it: the file header passes the option-independent rules of FileHeader.Validate,
      every batch has a header, every addenda record carries the type code of the field it is stored in (what
      Addenda….Validate checks), ADV entries without Addenda99 are Forward entries, Create's preconditions *)
   Definition valid (v : val) : bool :=
     let d := tree_of_file v in
     let o := kid d "validateOpts" in
-    forallb (fun h => rec_validb V_FileHeader (rscal h)) (kid d "Header")
+    forallb (fun h => rec_validb hdr_core_rules (rscal h)) (kid d "Header")
     && match kid d "Header" with [_] => true | _ => false end
     && forallb has_header (kid d "Batches") && forallb has_header (kid d "IATBatches")
     && forallb (fun b => forallb (addenda_typed (codes_for json_post_table "EntryDetail")) (kid b "Entries")
